@@ -445,6 +445,14 @@ func apiSeqLine(t []string) string {
 					_ = vm.RunAfterParsed()
 				}
 			}},
+			// a "parse, run, show" helper that only logs the parse error and carries on
+			{"RunAfterParsed.afterFailedParse", func() {
+				if perr != nil {
+					_ = vm.RunAfterParsed()
+					_ = vm.GetDetailText()
+					_ = vm.GetAsmText()
+				}
+			}},
 			{"Ret.ToString", func() {
 				if vm.Ret != nil {
 					_ = vm.Ret.ToString()
